@@ -175,10 +175,22 @@ fn timer_list(e: &'static Engine, adders: &'static [&'static str]) {
     let mut tids = vec![];
     for (a, ops) in adders.iter().enumerate() {
         tids.push(e.spawn("adder", move || {
-            let mut last = None;
+            let mut last: Option<(may::verif::TimeoutHandle<usize>, usize)> = None;
             for (k, o) in ops.chars().enumerate() {
                 match o {
                     's' => e.vsleep(MS),
+                    'r' => {
+                        // what EventData::fast_schedule does on whatever worker runs the socket's subscribe: unlink the
+                        // entry directly instead of asking the list's consumer thread to do it
+                        if let Some((h, data)) = last.take() {
+                            let removed = h.remove().is_some();
+                            let mut du = due.lock().unwrap();
+                            if let Some(x) = du.iter_mut().find(|x| x.0 == data) {
+                                x.2 = true;
+                                let _ = removed;
+                            }
+                        }
+                    }
                     'd' => {
                         if let Some((h, data)) = last.take() {
                             let now = may::verif::now();
@@ -288,6 +300,12 @@ pub fn build(quick: bool) -> Vec<Scenario> {
     // timer list component
     // fine granularity: the entry list (mpsc_list_v1) and the heap bookkeeping are interleaved step by step;
     // 's' = the adder first sleeps 1 ms, so that its add coincides with the expiry of an earlier 1 ms timer
+    if std::env::var_os("MAYVERIF_EXPERIMENT").is_some() {
+        for adders in [&["2", "s2r"][..], &["22", "s2r"], &["2", "2r"], &["2", "s2r2"]] {
+            let adders: &'static [&'static str] = adders;
+            v.push(Scenario::new("C08", "timer_list_foreign_remove", format!("timerlist.foreign_remove.{}", adders.join("_")), Arc::new(move |e| timer_list(e, adders))).fine().t2().vt_horizon(100 * MS).bound(2));
+        }
+    }
     for adders in [&["22"][..], &["23"], &["2d"], &["32d"], &["2", "2"], &["2", "4"], &["0", "2"], &["2d", "2"], &["24", "2d"], &["2", "s2"], &["2", "s2s2"], &["22", "s2"], &["2", "s4"]] {
         let adders: &'static [&'static str] = adders;
         v.push(Scenario::new("C08", "timer_list", format!("timerlist.{}", adders.join("_")), Arc::new(move |e| timer_list(e, adders))).fine().t2().vt_horizon(100 * MS).tier(quick));
